@@ -1,0 +1,70 @@
+//go:build verif
+
+/*
+ * Licensed to the Apache Software Foundation (ASF) under one or more
+ * contributor license agreements.  See the NOTICE file distributed with
+ * this work for additional information regarding copyright ownership.
+ * The ASF licenses this file to You under the Apache License, Version 2.0
+ * (the "License"); you may not use this file except in compliance with
+ * the License.  You may obtain a copy of the License at
+ *
+ *     http://www.apache.org/licenses/LICENSE-2.0
+ *
+ * Unless required by applicable law or agreed to in writing, software
+ * distributed under the License is distributed on an "AS IS" BASIS,
+ * WITHOUT WARRANTIES OR CONDITIONS OF ANY KIND, either express or implied.
+ * See the License for the specific language governing permissions and
+ * limitations under the License.
+ */
+
+package backoff
+
+// Verification contracts (comment-only, tag verif) for the retry helper used by the transaction
+// manager (C04). The caller's context is the environment: Err() may become non-nil at any time and
+// stays non-nil (ghost.ctx_done).
+
+//@ ghost var ctx_done bool
+//@ iface (context.Context).Err
+//@   modifies ghost.ctx_done
+//@   ensures ghost.ctx_done == (result != nil) && (old(ghost.ctx_done) ==> ghost.ctx_done)
+//@ iface (context.Context).Done
+//@   ensures true
+
+//@ func doubleDuration
+//@   prop C04
+//@   ensures post: (value * 2 <= max ==> result == value * 2) && (value * 2 > max ==> result == max)
+//@   nopanic
+
+//@ func New
+//@   prop C04
+//@   ensures post: result != nil && result.numRetries == 0 && result.cfg.MaxRetries == cfg.MaxRetries && result.ctx == ctx
+//@   nopanic
+
+//@ func (*Backoff).Ongoing
+//@   prop C04
+//@   requires b != nil && b.ctx != nil
+//@   modifies ghost.ctx_done
+//@   ensures post: result == (!ghost.ctx_done && (b.cfg.MaxRetries == 0 || b.numRetries < b.cfg.MaxRetries))
+//@   ensures monotone: old(ghost.ctx_done) ==> ghost.ctx_done
+//@   nopanic
+
+//@ func (*Backoff).Err
+//@   prop C04
+//@   requires b != nil && b.ctx != nil
+//@   modifies ghost.ctx_done
+//@   ensures post: (result == nil) == (!ghost.ctx_done && !(b.cfg.MaxRetries != 0 && b.numRetries >= b.cfg.MaxRetries))
+//@   ensures monotone: old(ghost.ctx_done) ==> ghost.ctx_done
+//@   nopanic
+
+//@ func (*Backoff).NextDelay
+//@   prop C04
+//@   requires b != nil
+//@   modifies b.numRetries, b.nextDelayMin, b.nextDelayMax
+//@   ensures counts: b.numRetries == old(b.numRetries) + 1
+
+//@ func (*Backoff).Wait
+//@   prop C04
+//@   requires b != nil && b.ctx != nil
+//@   modifies b.numRetries, b.nextDelayMin, b.nextDelayMax, ghost.ctx_done
+//@   ensures counts: b.numRetries == old(b.numRetries) + 1
+//@   ensures monotone: old(ghost.ctx_done) ==> ghost.ctx_done
